@@ -120,6 +120,13 @@ fn pick_config(rng: &mut Rng) -> (usize, usize) {
     if rng.chance(1, 25) { (max, max) } else { (init.min(max), max) }
 }
 
+/// writer-side families: now and then the production defaults (command_buffer_size 1 000 000,
+/// max_command_buffer_size 2 000 000) so that single frames exceed what a unix socket with
+/// default wmem takes in one pass
+fn pick_config_w(rng: &mut Rng) -> (usize, usize) {
+    if rng.chance(1, 40) { (1_000_000, 2_000_000) } else { pick_config(rng) }
+}
+
 fn gen_sizes(rng: &mut Rng, init: usize, max: usize, allow_over: bool) -> Vec<usize> {
     let small = |rng: &mut Rng| rng.urange(PREFIX, PREFIX + 56);
     let mut v = Vec::new();
@@ -591,6 +598,109 @@ fn flush<A: prost::Message + Default + std::fmt::Debug, B: prost::Message + Defa
     }
 }
 
+/// bytes written to the socket that the peer has not read yet (SIOCOUTQ; 0 = the kernel holds
+/// nothing any more, the socket is writable again)
+fn outq(fd: std::os::unix::io::RawFd) -> Option<usize> {
+    let mut n: libc::c_int = 0;
+    // SAFETY: SIOCOUTQ writes one int
+    let r = unsafe { libc::ioctl(fd, libc::TIOCOUTQ, &mut n as *mut libc::c_int) };
+    if r == 0 { Some(n.max(0) as usize) } else { None }
+}
+
+/// One reaction of the channel owner to a WRITABLE event, in the two disciplines found in the
+/// tree: even k = `handle_events` + `run()`-style gating on `readiness()` (lib/src/server.rs,
+/// `Channel::run`), odd k = `handle_events` + unconditional `writable()` (bin/src/command/
+/// sessions.rs `ready()`). Returns the bytes written.
+fn owner_write_step<A: prost::Message + Default + std::fmt::Debug, B: prost::Message + Default + std::fmt::Debug>(ch: &mut Channel<A, B>, pr: &mut Probe, st: &mut WState, k: u32) -> usize {
+    let before = st.written;
+    if k % 2 == 0 {
+        flush(ch, pr, st);
+    } else {
+        ch.handle_events(Ready::WRITABLE);
+        let r = ch.writable();
+        pr.after(ch, "writable");
+        match r {
+            Ok(n) => st.written += n,
+            Err(ChannelError::Connection(None)) => {} // "not interested": what sessions.rs ignores too
+            Err(e) => st.hard.push((ekind(&e), e.to_string())),
+        }
+        if !ch.readiness.is_writable() && ch.back_buf.available_data() > 0 {
+            st.eagain += 1;
+            st.fills.insert(ch.back_buf.available_data() * 32 / pr.max.max(1));
+        }
+    }
+    st.written - before
+}
+
+const STRANDED_STEPS: u32 = 8;
+
+fn stranded_json<A, B>(ch: &Channel<A, B>, st: &WState, steps: u32) -> Value {
+    json!({
+        "back_buf_pending_bytes": ch.back_buf.available_data(),
+        "back_buf_capacity": ch.back_buf.capacity(),
+        "bytes_written_to_socket_so_far": st.written,
+        "socket_send_queue_bytes(SIOCOUTQ)": outq(ch.sock.as_raw_fd()),
+        "would_block_seen_by_writable": st.eagain,
+        "interest": format!("{:?}", ch.interest),
+        "readiness": format!("{:?}", ch.readiness),
+        "owner_reactions_without_any_byte_written": steps,
+        "owner_reactions": "alternately handle_events(WRITABLE)+run()-style gating (lib/src/server.rs) and handle_events(WRITABLE)+writable() (bin/src/command/sessions.rs ready()); no new message queued in between",
+    })
+}
+
+enum Drain {
+    Empty,
+    /// the peer drained all the kernel held, the owner reacted STRANDED_STEPS times to WRITABLE,
+    /// not one byte moved and the back buffer still holds data
+    Stranded(Value),
+    Cap,
+}
+
+/// Drain the back buffer of a writer whose peer is driven by `peer` (reads everything the kernel
+/// holds, returns the byte count). Purely logical: every round that is not idle moves >= 1 byte.
+fn drain_writer<A: prost::Message + Default + std::fmt::Debug, B: prost::Message + Default + std::fmt::Debug>(ch: &mut Channel<A, B>, pr: &mut Probe, st: &mut WState, mut peer: impl FnMut() -> usize) -> Drain {
+    let cap = 10_000 + 2 * ch.back_buf.available_data() as u64;
+    let mut idle = 0u32;
+    let mut k = 0u32;
+    let mut rounds = 0u64;
+    loop {
+        if ch.back_buf.available_data() == 0 {
+            return Drain::Empty;
+        }
+        let wrote = owner_write_step(ch, pr, st, k);
+        k += 1;
+        let got = peer();
+        if wrote == 0 && got == 0 && ch.back_buf.available_data() > 0 {
+            idle += 1;
+            if idle >= STRANDED_STEPS {
+                return Drain::Stranded(stranded_json(ch, st, idle));
+            }
+        } else {
+            idle = 0;
+        }
+        rounds += 1;
+        if rounds > cap {
+            return Drain::Cap;
+        }
+    }
+}
+
+fn report_stranded(rep: &mut Report, base: &Value, family: &str, st: &WState, detail: Value, extra: Value) {
+    let mut w = base.clone();
+    w["observed"] = detail;
+    w["context"] = extra;
+    w["expected"] = json!("once the peer has read everything the kernel held and the owner has reacted to WRITABLE, the rest of the back buffer is written: back_buf ends empty and the peer holds every accepted frame");
+    if st.eagain > 0 {
+        rep.violation(
+            &format!("channel/stranded_after_would_block/{family}"),
+            "after writable() hit would-block with bytes pending, the channel never writes again although the peer drained the socket and the owner reacted to WRITABLE: the frame tail is stranded in the back buffer",
+            w,
+        );
+    } else {
+        rep.violation(&format!("channel/write_drain_stalled/{family}"), "the back buffer is never written out although the socket is empty and the owner reacts to WRITABLE (no would-block was seen before)", w);
+    }
+}
+
 fn peer_read(raw: &mut std::os::unix::net::UnixStream, want: usize, got: &mut Vec<u8>) -> usize {
     let mut buf = vec![0u8; want.min(65_536).max(1)];
     let mut n = 0;
@@ -658,7 +768,7 @@ fn judge_written<M: Tm>(rep: &mut Report, base: &Value, accepted: &[M], got: &[u
 
 fn write_case<M: Tm>(ctx: &Ctx, i: u64, rep: &mut Report) {
     let mut rng = Rng::for_case(ctx.seed, S_WRITE, i);
-    let (init, max) = pick_config(&mut rng);
+    let (init, max) = pick_config_w(&mut rng);
     let sndbuf = match rng.below(4) {
         0 => None,
         1 => Some(1),
@@ -687,6 +797,8 @@ fn write_case<M: Tm>(ctx: &Ctx, i: u64, rep: &mut Report) {
     let mut over_rejected = 0u64;
     let mut bp_rejected = 0u64;
     let mut violated = false;
+    let mut stranded: Option<Value> = None;
+    let mut gave_up = false;
     let mut w = base_witness(ctx, "write", i, M::NAME, init, max);
     w["channel_so_sndbuf"] = json!(sndbuf);
     w["target_frame_lengths"] = json!(sizes);
@@ -721,11 +833,16 @@ fn write_case<M: Tm>(ctx: &Ctx, i: u64, rep: &mut Report) {
                     // back-pressure: drain completely, then the retry must succeed
                     bp_rejected += 1;
                     ops.push(format!("write({})=MessageTooLarge pending={pending}; drain", describe(&m)));
-                    let mut rounds = 0;
-                    while ch.back_buf.available_data() > 0 && rounds < 400 + pending / 64 {
-                        flush(&mut ch, &mut pr, &mut st);
-                        peer_read(&mut raw, usize::MAX, &mut got);
-                        rounds += 1;
+                    match drain_writer(&mut ch, &mut pr, &mut st, || peer_read(&mut raw, usize::MAX, &mut got)) {
+                        Drain::Empty => {}
+                        Drain::Stranded(d) => {
+                            stranded = Some(d);
+                            break;
+                        }
+                        Drain::Cap => {
+                            gave_up = true;
+                            break;
+                        }
                     }
                 }
                 Err(e) => {
@@ -743,7 +860,7 @@ fn write_case<M: Tm>(ctx: &Ctx, i: u64, rep: &mut Report) {
                 }
             }
         }
-        if violated {
+        if violated || stranded.is_some() || gave_up {
             break;
         }
         if rng.below(100) < p_flush {
@@ -761,18 +878,13 @@ fn write_case<M: Tm>(ctx: &Ctx, i: u64, rep: &mut Report) {
         }
     }
     // final drain
-    let pending0 = ch.back_buf.available_data();
-    let mut rounds = 0;
-    let mut idle = 0;
-    while rounds < 1000 + pending0 / 64 {
-        flush(&mut ch, &mut pr, &mut st);
-        let n = peer_read(&mut raw, usize::MAX, &mut got);
-        rounds += 1;
-        if ch.back_buf.available_data() == 0 && n == 0 {
-            idle += 1;
-            if idle >= 2 {
-                break;
+    if stranded.is_none() && !gave_up && !violated {
+        match drain_writer(&mut ch, &mut pr, &mut st, || peer_read(&mut raw, usize::MAX, &mut got)) {
+            Drain::Empty => {
+                peer_read(&mut raw, usize::MAX, &mut got);
             }
+            Drain::Stranded(d) => stranded = Some(d),
+            Drain::Cap => gave_up = true,
         }
     }
     let nontrivial = st.eagain > 0 || accepted.len() >= 2;
@@ -789,7 +901,17 @@ fn write_case<M: Tm>(ctx: &Ctx, i: u64, rep: &mut Report) {
     if violated {
         return;
     }
+    if gave_up {
+        rep.inconclusive("write drain did not finish within its step cap");
+        return;
+    }
     w["operations_tail"] = json!(ops.iter().rev().take(80).rev().collect::<Vec<_>>());
+    if let Some(d) = stranded {
+        let expected: usize = accepted.iter().map(frame_len).sum();
+        report_stranded(rep, &w, "write", &st, d, json!({"accepted_messages": accepted.len(), "bytes_of_accepted_frames": expected, "bytes_the_peer_holds": got.len(),
+            "frame_cut": accepted.iter().scan(0usize, |acc, m| { *acc += frame_len(m); Some((*acc, describe(m))) }).find(|(end, _)| *end > got.len()).map(|(_, d)| d)}));
+        return;
+    }
     w["accepted"] = json!(accepted.iter().take(80).map(describe).collect::<Vec<_>>());
     w["writable_errors"] = json!(st.hard);
     if pr.judge(rep, &w) {
@@ -809,7 +931,7 @@ fn write_case<M: Tm>(ctx: &Ctx, i: u64, rep: &mut Report) {
 
 fn pair_case<M: Tm>(ctx: &Ctx, i: u64, rep: &mut Report) {
     let mut rng = Rng::for_case(ctx.seed, S_PAIR, i);
-    let (init, max) = pick_config(&mut rng);
+    let (init, max) = pick_config_w(&mut rng);
     let (sa, sb) = MioUnixStream::pair().expect("socketpair");
     if rng.bool() {
         set_sndbuf(sa.as_raw_fd(), 1);
@@ -825,6 +947,7 @@ fn pair_case<M: Tm>(ctx: &Ctx, i: u64, rep: &mut Report) {
     let styles = [Style::of(rng.below(2)), Style::of(rng.below(2))];
     let sizes = [gen_sizes(&mut rng, init, max, false), gen_sizes(&mut rng, init, max, false)];
     let mut next = [0usize, 0usize];
+    let mut pending_msg: [Option<M>; 2] = [None, None];
     let mut accepted: [Vec<M>; 2] = [Vec::new(), Vec::new()];
     let mut ops = 0;
     let mut bp = 0u64;
@@ -834,7 +957,11 @@ fn pair_case<M: Tm>(ctx: &Ctx, i: u64, rep: &mut Report) {
         let side = rng.usize_below(2);
         match rng.below(3) {
             0 if next[side] < sizes[side].len() => {
-                let m = fit::<M>((side as u64) * 1_000_000 + next[side] as u64, sizes[side][next[side]]);
+                // built once per message (a rejected attempt is retried with the same message)
+                let m = match pending_msg[side].take() {
+                    Some(m) => m,
+                    None => fit::<M>((side as u64) * 1_000_000 + next[side] as u64, sizes[side][next[side]]),
+                };
                 let r = chans[side].write_message(&m);
                 probes[side].after(&chans[side], "write_message");
                 match r {
@@ -842,7 +969,12 @@ fn pair_case<M: Tm>(ctx: &Ctx, i: u64, rep: &mut Report) {
                         accepted[side].push(m);
                         next[side] += 1;
                     }
-                    Err(ChannelError::MessageTooLarge { .. }) if chans[side].back_buf.available_data() > 0 => bp += 1,
+                    Err(ChannelError::MessageTooLarge { .. }) if chans[side].back_buf.available_data() > 0 => {
+                        bp += 1;
+                        pending_msg[side] = Some(m);
+                        // the owner reacts to back-pressure by flushing, not by retrying at once
+                        flush(&mut chans[side], &mut probes[side], &mut wst[side]);
+                    }
                     Err(e) => {
                         hard_write = Some(format!("side {side}: write_message({}) with empty back buffer: {e}", describe(&m)));
                         break;
@@ -876,6 +1008,34 @@ fn pair_case<M: Tm>(ctx: &Ctx, i: u64, rep: &mut Report) {
             idle = 0;
         }
     }
+    // a writer that still holds bytes although its peer has read everything the kernel held
+    let mut stranded: [Option<Value>; 2] = [None, None];
+    for from in 0..2 {
+        let to = 1 - from;
+        if chans[from].back_buf.available_data() == 0 {
+            continue;
+        }
+        let mut idle = 0u32;
+        for k in 0..(4 * STRANDED_STEPS) {
+            let q = outq(chans[from].sock.as_raw_fd());
+            let wrote = owner_write_step(&mut chans[from], &mut probes[from], &mut wst[from], k);
+            let before = recvs[to].bytes_read;
+            tick_read(&mut chans[to], styles[to], &mut probes[to], &mut recvs[to]);
+            let read = recvs[to].bytes_read - before;
+            if chans[from].back_buf.available_data() == 0 {
+                break;
+            }
+            if wrote == 0 && read == 0 && q == Some(0) {
+                idle += 1;
+                if idle >= STRANDED_STEPS {
+                    stranded[from] = Some(stranded_json(&chans[from], &wst[from], idle));
+                    break;
+                }
+            } else {
+                idle = 0;
+            }
+        }
+    }
     let lens: Vec<usize> = accepted[0].iter().chain(accepted[1].iter()).map(frame_len).collect();
     rep.case(fingerprint("pair", styles[0].name(), init, max, &lens, &[]), lens.len() >= 2);
     rep.obs("write_backpressure_rejections", bp);
@@ -901,6 +1061,13 @@ fn pair_case<M: Tm>(ctx: &Ctx, i: u64, rep: &mut Report) {
         w["items"] = items_json(&items);
         w["writer_errors"] = json!(wst[from].hard);
         w["writer_back_buf_pending_at_end"] = json!(chans[from].back_buf.available_data());
+        if let Some(d) = stranded[from].take() {
+            let expected: usize = accepted[from].iter().map(frame_len).sum();
+            report_stranded(rep, &w, "pair", &wst[from], d, json!({"accepted_messages": accepted[from].len(), "bytes_of_accepted_frames": expected,
+                "messages_the_peer_channel_delivered": recvs[to].delivered.len(), "bytes_the_peer_channel_read": recvs[to].bytes_read,
+                "peer_front_buf_pending": chans[to].front_buf.available_data()}));
+            continue;
+        }
         let run = ReadRun { recv: std::mem::take(&mut recvs[to]), probe: probes[to].clone(), fed_all: true, fed: 0, feeder_eagain: 0, resumes: 0 };
         if !judge_read(rep, &w, &items, &run) {
             rep.obs("messages_delivered", run.recv.delivered.len() as u64);
@@ -1027,7 +1194,7 @@ fn bpair_case<M: Tm>(ctx: &Ctx, i: u64, rep: &mut Report) {
 
 fn twrite_case<M: Tm>(ctx: &Ctx, i: u64, rep: &mut Report) {
     let mut rng = Rng::for_case(ctx.seed, S_TWRITE, i);
-    let (init, max) = pick_config(&mut rng);
+    let (init, max) = pick_config_w(&mut rng);
     let sndbuf = *rng.pick(&[1, 1, 4096, 16_384]);
     let (cend, raw) = pair_raw();
     set_sndbuf(cend.as_raw_fd(), sndbuf);
@@ -1067,11 +1234,39 @@ fn twrite_case<M: Tm>(ctx: &Ctx, i: u64, rep: &mut Report) {
         sizes.push(rng.urange(max / 2, max));
     }
     let mut accepted: Vec<M> = Vec::new();
-    let deadline = std::time::Instant::now() + Duration::from_secs(10);
+    let deadline = std::time::Instant::now() + Duration::from_secs(20);
     let mut timed_out = false;
     let mut refused: Option<String> = None;
-    'msgs: for (k, s) in sizes.iter().enumerate() {
-        let m = fit::<M>(k as u64, (*s).min(max));
+    let mut stranded: Option<Value> = None;
+    let fd = ch.sock.as_raw_fd();
+    let mut k = 0u32;
+    // One owner reaction while the back buffer holds data. Decided on logical steps: when the
+    // kernel send queue is empty (the peer thread has read everything) the socket is writable,
+    // so a reaction to WRITABLE that moves no byte is an idle step; STRANDED_STEPS of them in a
+    // row with data pending is the verdict. The wall clock only bounds the wait for the peer
+    // thread (send queue not yet empty) and then yields "inconclusive".
+    let mut idle = 0u32;
+    let mut step = |ch: &mut Channel<M, M>, pr: &mut Probe, st: &mut WState, stranded: &mut Option<Value>, timed_out: &mut bool| {
+        let q = outq(fd);
+        let wrote = owner_write_step(ch, pr, st, k);
+        k = k.wrapping_add(1);
+        if wrote > 0 || ch.back_buf.available_data() == 0 {
+            idle = 0;
+        } else if q == Some(0) {
+            idle += 1;
+            if idle >= STRANDED_STEPS {
+                *stranded = Some(stranded_json(ch, st, idle));
+            }
+        } else {
+            idle = 0;
+            if std::time::Instant::now() > deadline {
+                *timed_out = true;
+            }
+            std::thread::yield_now();
+        }
+    };
+    'msgs: for (n, s) in sizes.iter().enumerate() {
+        let m = fit::<M>(n as u64, (*s).min(max));
         loop {
             let pending = ch.back_buf.available_data();
             let r = ch.write_message(&m);
@@ -1082,12 +1277,10 @@ fn twrite_case<M: Tm>(ctx: &Ctx, i: u64, rep: &mut Report) {
                     break;
                 }
                 Err(ChannelError::MessageTooLarge { .. }) if pending > 0 => {
-                    flush(&mut ch, &mut pr, &mut st);
-                    if std::time::Instant::now() > deadline {
-                        timed_out = true;
+                    step(&mut ch, &mut pr, &mut st, &mut stranded, &mut timed_out);
+                    if stranded.is_some() || timed_out {
                         break 'msgs;
                     }
-                    std::thread::yield_now();
                 }
                 Err(e) => {
                     refused = Some(format!("write_message({}) with an empty back buffer: {e}", describe(&m)));
@@ -1099,12 +1292,8 @@ fn twrite_case<M: Tm>(ctx: &Ctx, i: u64, rep: &mut Report) {
             flush(&mut ch, &mut pr, &mut st);
         }
     }
-    while ch.back_buf.available_data() > 0 && !timed_out {
-        flush(&mut ch, &mut pr, &mut st);
-        if std::time::Instant::now() > deadline {
-            timed_out = true;
-        }
-        std::thread::yield_now();
+    while ch.back_buf.available_data() > 0 && !timed_out && stranded.is_none() && refused.is_none() {
+        step(&mut ch, &mut pr, &mut st, &mut stranded, &mut timed_out);
     }
     // SAFETY: half-close of a descriptor the channel still owns: the peer sees EOF after the data
     unsafe {
@@ -1117,7 +1306,7 @@ fn twrite_case<M: Tm>(ctx: &Ctx, i: u64, rep: &mut Report) {
     rep.obs("write_eagain_windows", st.eagain);
     rep.obs("threaded_write_cases", 1);
     if timed_out {
-        rep.inconclusive("threaded writer watchdog (10 s) expired");
+        rep.inconclusive("threaded writer: the peer thread did not drain the socket within the 20 s watchdog");
         return;
     }
     let mut w = base_witness(ctx, "twrite", i, M::NAME, init, max);
@@ -1126,6 +1315,12 @@ fn twrite_case<M: Tm>(ctx: &Ctx, i: u64, rep: &mut Report) {
     w["accepted"] = json!(accepted.iter().take(80).map(describe).collect::<Vec<_>>());
     w["writable_errors"] = json!(st.hard);
     w["note"] = json!("two threads: timing dependent, a replay may not reproduce");
+    if let Some(d) = stranded {
+        let expected: usize = accepted.iter().map(frame_len).sum();
+        report_stranded(rep, &w, "twrite", &st, d, json!({"accepted_messages": accepted.len(), "bytes_of_accepted_frames": expected, "bytes_the_peer_holds": got.len(),
+            "frame_cut": accepted.iter().scan(0usize, |acc, m| { *acc += frame_len(m); Some((*acc, describe(m))) }).find(|(end, _)| *end > got.len()).map(|(_, d)| d)}));
+        return;
+    }
     if let Some(r) = refused {
         w["observed"] = json!(r);
         rep.violation("channel/write_rejected/threaded", "write_message refused a message <= max with an empty back buffer", w);
